@@ -13,11 +13,12 @@ CONSTANTS MaxDepth,   \* nesting of scopes
           MaxSteps,   \* actions per path
           MaxPend,    \* to-be-closed variables per scope
           Kinds,      \* scope kinds allowed: subset of {"do","loop","forin","fn","pcall","xpcall","co"}
-          Handlers,   \* handler kinds allowed: subset of {"ok","raise","nil","false","nometa"}
+          Handlers,   \* handler kinds allowed: subset of {"ok","raise","raisetbc","nil","false","nometa"}
           ErrKinds,   \* error values: subset of {"str","tbl","pos","pos2","num","nilv","rt"}
           XHandlers,  \* message-handler kinds of xpcall scopes: subset of {"val","none"}
           Battery,    \* TRUE: after every caught error the program runs a fixed consistency battery (C11)
-          ViewHist
+          ViewHist,
+          EmitAll     \* TRUE: one line per transition; FALSE: only complete paths (simulation)
 
 VARIABLES scopes,  \* Seq([kind, id, pend]) innermost last; pend = Seq([id, h]) in declaration order
           n,       \* steps so far
@@ -44,8 +45,11 @@ RECURSIVE RunPend(_, _, _)
 RunPend(pend, e, evs) ==
   IF pend = <<>> THEN [evs |-> evs, e |-> e]
   ELSE LET v == Last(pend)
-           e2 == IF v.h = "raise" THEN "R" \o ToString(v.id) ELSE e
-       IN RunPend(ButLast(pend), e2, Append(evs, <<"tbc", v.id, e>>))
+           e2 == IF v.h \in {"raise", "raisetbc"} THEN "R" \o ToString(v.id) ELSE e
+           (* a "raisetbc" handler declares a to-be-closed variable of its own (id + 100) before raising:
+              that variable is closed, with the error the handler raised, when the handler is left *)
+           own == IF v.h = "raisetbc" THEN << <<"tbc", v.id + 100, e2>> >> ELSE <<>>
+       IN RunPend(ButLast(pend), e2, Append(evs, <<"tbc", v.id, e>>) \o own)
 
 (* Unwind scopes.  mode "norm": leave `cnt` more scopes; "fn": leave up to and
    including the nearest function-like scope, returning rv; "err": propagate error e.
@@ -114,7 +118,7 @@ Step(act, sc, f, evs) ==
   /\ out' = out \o evs
   /\ hist' = Append(hist, [k |-> n + 1, d |-> Len(sc)] @@ act)
   /\ LET t == IF f = "run" THEN FallOff(sc, <<>>) ELSE [evs |-> <<>>, fin |-> f]
-     IN Emit([h |-> hist', ev |-> out' \o t.evs, fin |-> t.fin])
+     IN IF EmitAll \/ n + 1 = MaxSteps \/ f # "run" THEN Emit([h |-> hist', ev |-> out' \o t.evs, fin |-> t.fin]) ELSE TRUE
 
 Can == fin = "run" /\ n < MaxSteps
 
@@ -195,7 +199,7 @@ ClosedOnce ==
 NoPendingLost ==
   \* every declared ok/raise variable is either still pending in an open scope or has been closed
   \A s \in 1..Len(hist) :
-     (hist[s].a = "decl" /\ hist[s].h \in {"ok", "raise"}) =>
+     (hist[s].a = "decl" /\ hist[s].h \in {"ok", "raise", "raisetbc"}) =>
         \/ \E i \in 1..Len(scopes) : \E j \in 1..Len(scopes[i].pend) : scopes[i].pend[j].id = hist[s].k
         \/ \E i \in 1..Len(out) : out[i][1] = "tbc" /\ out[i][2] = hist[s].k
 =============================================================================
